@@ -69,6 +69,10 @@ structure CreateObs where
   /-- `NameComposer::ParseName` of the full name (oracle) -/
   parts : Option (List (Str × Value))
   now : Dec
+  /-- `DependencyGraph::GetParents` / `GetChildren` of the object, if it exists afterwards (children =
+      what apply rules generated for it) -/
+  parents : List Key := []
+  children : List Key := []
   /-- path of the object's file, if it exists afterwards -/
   file : Option Str
   /-- `Serialize(obj, FAConfig)` projected on the first tokens of the supplied keys -/
@@ -178,9 +182,17 @@ def specCreate (before : World) (i : CreateIn) (o : CreateObs) : Option String :
           else if after ≠ before then some "ignored_leaves_nothing" else none
         | some ob =>
           if !ob.active then some "active_object"
-          else if after.objs.filter (fun x => x.key ≠ k) ≠ before.objs || after.glob ≠ before.glob then
+          -- what the new object hangs on must exist: an object that was deleted, or whose creation failed,
+          -- must not be reachable any more
+          else if o.parents.any (fun p => after.objs.any (fun x => x.key.ty = p.ty) && !after.has p) then
+            some "dangling_parent"
+          -- apart from the object and the children apply rules generated for it (all new) nothing changed
+          else if o.children.any (fun c => before.has c) ||
+              after.objs.filter (fun x => x.key ≠ k && !o.children.contains x.key) ≠ before.objs ||
+              after.glob ≠ before.glob then
             some "others_untouched"
-          else if !(subsetKeys before.items after.items && after.items.all (fun x => x = k || before.items.contains x)) then
+          else if !(subsetKeys before.items after.items &&
+              after.items.all (fun x => x = k || o.children.contains x || before.items.contains x)) then
             some "item_registered"
           else
             match o.file with
